@@ -1,8 +1,10 @@
 """Helpers that drive the real library (imported from SKC_REPO, default /repo)."""
 import contextlib
+import json
 import os
 import sys
 import warnings
+import zlib
 
 warnings.filterwarnings("ignore")
 
@@ -24,7 +26,7 @@ def repo_check():
         raise RuntimeError(f"skcriteria imported from {path}, expected under {root}")
 
 
-def mk(case, dtype=float):
+def mk_direct(case, dtype=float):
     mtx = np.array(case["matrix"], dtype=dtype)
     return mkdm(
         mtx,
@@ -33,6 +35,72 @@ def mk(case, dtype=float):
         alternatives=list(case["alternatives"]) if case.get("alternatives") else None,
         criteria=list(case["criteria"]) if case.get("criteria") else None,
     )
+
+
+ROUTES = ("direct", "direct", "direct", "slice", "copy", "dict", "iloc", "slice")
+
+
+def mk_route(case):
+    """How the matrix of this case is obtained - a pure function of the case, so that replays are exact."""
+    if os.environ.get("SKC_MK_ROUTES", "1") == "0" or case.get("route") == "direct":
+        return "direct"
+    if not case.get("alternatives") or not case.get("criteria") or case.get("weights") is None:
+        return "direct"
+    if not all(isinstance(x, str) for x in list(case["alternatives"]) + list(case["criteria"])):
+        return "direct"
+    key = json.dumps([case["matrix"], list(case["objectives"]), list(case["weights"]),
+                      list(case["alternatives"]), list(case["criteria"])], sort_keys=True, default=str)
+    return ROUTES[zlib.crc32(key.encode()) % len(ROUTES)]
+
+
+def mk(case, dtype=float):
+    """The decision matrix of a case.  Half of the time it is built directly with mkdm; otherwise it is DERIVED
+    (a criteria + alternatives selection out of a larger, differently ordered matrix; copy(); a to_dict()/mkdm
+    round trip; a positional selection) - by C01 these are the same matrix, and every check of every property
+    then also covers matrices that come out of a selection."""
+    route = mk_route(case) if dtype is float else "direct"
+    if route == "direct":
+        return mk_direct(case, dtype)
+    alts, crits = list(case["alternatives"]), list(case["criteria"])
+    mtx = np.array(case["matrix"], dtype=float)
+    n, m = mtx.shape if mtx.ndim == 2 else (len(alts), len(crits))
+    if mtx.ndim != 2 or n == 0 or m == 0:
+        return mk_direct(case, dtype)
+    objs, wts = list(case["objectives"]), list(case["weights"])
+    if route == "copy":
+        return mk_direct(case).copy()
+    if route == "dict":
+        d = mk_direct(case).to_dict()
+        return mkdm(**d)
+    h = zlib.crc32(repr((alts, crits)).encode())
+    if route == "iloc":
+        # rows and columns listed backwards, then selected back by position
+        big = mkdm(mtx[::-1, ::-1].copy(), objectives=objs[::-1], weights=wts[::-1], alternatives=alts[::-1], criteria=crits[::-1])
+        return big.iloc[list(range(n - 1, -1, -1)), list(range(m - 1, -1, -1))]
+    # slice: a decoy criterion (opposite sense, other weight) and a decoy alternative, everything rotated
+    dc, da = "zz_decoy_crit", "zz_decoy_alt"
+    if dc in crits or da in alts:
+        return mk_direct(case, dtype)
+    kc, ka = h % (m + 1), (h // 7) % (n + 1)
+    ocr = crits[kc:] + [dc] + crits[:kc]
+    oal = alts[ka:] + [da] + alts[:ka]
+    col = {c: j for j, c in enumerate(crits)}
+    row = {a: i for i, a in enumerate(alts)}
+    decoy_col = [float(1 + (h + i) % 5) for i in range(n + 1)]
+    bigm = np.empty((n + 1, m + 1), dtype=float)
+    for i, a in enumerate(oal):
+        for j, c in enumerate(ocr):
+            if c == dc:
+                bigm[i, j] = decoy_col[i]
+            elif a == da:
+                bigm[i, j] = float(np.mean(mtx[:, col[c]]))
+            else:
+                bigm[i, j] = mtx[row[a], col[c]]
+    some_min = any(o in (-1, min) or str(o).lower() in ("min", "minimize") for o in objs)
+    bobjs = [(max if some_min else min) if c == dc else objs[col[c]] for c in ocr]
+    bw = [7.5 if c == dc else wts[col[c]] for c in ocr]
+    big = mkdm(bigm, objectives=bobjs, weights=bw, alternatives=oal, criteria=ocr)
+    return big[crits].loc[alts]
 
 
 def exc_code(e):
